@@ -48,6 +48,7 @@ CFG = {
         "32-bit type: none — C19_visit_roundtrip / C19_rt / C19_roundtrip are unconditional for every well-formed value (shared Bitmap.WF): the codec round trip is C05_decode (codec family), bridged by C19.codecWF_iff",
         "RoaringTreemap: none — C19_t_events, C19_t_events_methods, C19_t_visit_kinds, C19_t_visit_roundtrip, C19_t_rt are proved in full for well-formed treemaps (Treemap.WFd Bitmap.WF = Treemap.TWF; no codec hypothesis: the treemap round trip is C05_t_decode, lifted from the 32-bit C05_decode)",
         "postcard / serde_json themselves are exercised on the Rust side only (trusted formats); the model prints the property's expectation `ok eq=true`",
+        "model-fidelity audit (notes/fidelity-codecs.md): Serialize (one serialize_bytes of serialize_into's output), visit_bytes and visit_seq (push every element, then the checked decoder) are classified M for both types; deserialize_bytes dispatch, visit_borrowed_bytes / visit_byte_buf defaults and the formats are class A; `expecting` (message text) is not modelled. The driver now runs Serialize over the encoders with the exact u64 cardinality-field arithmetic (Serde.serEventsM / tserEventsM; see C05), restated: C19_events_mirror, C19_rt_mirror, C19_t_events_mirror, C19_t_rt_mirror",
     ],
     "level_text": "Theorems (Lean 4, kernel-checked) about the model of the serde impls: Serialize emits exactly one data-model event, bytes(serialize b); the visitor's visit_bytes / visit_borrowed_bytes / visit_byte_buf / visit_seq all run the checked decoder on the delivered bytes, so each returns the original value whenever the codec round trip holds for it (C05). The model is tied to the Rust source (built with --features serde) by a recording Serializer, hand-written Deserializers and real postcard/serde_json round trips on generated values, in two build profiles. Unbounded quantifier = theorem; tie = sampled.",
     "level_note": "Trusted: Lean kernel; the hand-written model mirrors the code (checked by correspondence on generated values only); serde's trait plumbing (default visit_borrowed_bytes/visit_byte_buf forwarding), postcard and serde_json; the codec round trip is property C05 (C05_decode), used here as a lemma. See evidence coverage.proof_gaps.",
